@@ -569,7 +569,7 @@ namespace adept {
 #define ADEPT_DEFINE_OPERATOR(OPERATOR, OPSYMBOL)		\
     template <class RType>				\
     Array& OPERATOR(const RType& rhs) {			\
-      return *this = noalias(*this OPSYMBOL rhs);	\
+      return *this = noalias(*this) OPSYMBOL rhs;	\
     }
     ADEPT_DEFINE_OPERATOR(operator+=, +)
     ADEPT_DEFINE_OPERATOR(operator-=, -)
